@@ -536,6 +536,7 @@ class Executor:
         self.safety_props = tuple(safety_props)
         self.frame_props = ()
         contract = self.contract_of(fn)
+        self.unroll_bound = contract.unroll if contract is not None else None
         frame = Frame(fn)
         frame.top = True
         frame.contract = contract
@@ -659,7 +660,12 @@ class Executor:
                     else:
                         cnt = dict(frame.unroll)
                         cnt[b] = cnt.get(b, 0) + 1
-                        if cnt[b] > 12:
+                        if self.unroll_bound is not None and cnt[b] > self.unroll_bound:
+                            # bounded mode: the unwinding assertion - no feasible path needs more iterations
+                            self.oblige(st, frame, 'unwind', 'loop%d@%s' % (loops[b]['ord'], self.short(fn)), z3.BoolVal(False),
+                                        self.safety_props, 0, 'a path needs more than %d iterations' % self.unroll_bound)
+                            return
+                        if self.unroll_bound is None and cnt[b] > 12:
                             raise Unsupported('loop %d of %s: unrolling bound exceeded, needs an invariant' % (loops[b]['ord'], fn.name))
                         frame.unroll = tuple(cnt.items())
                 # phis: evaluate simultaneously
@@ -747,6 +753,8 @@ class Executor:
         """'cut' (invariant) or 'unroll' (no invariant given and the trip count is concrete)"""
         fn = frame.fn
         L = fn.loops()[h]
+        if self.unroll_bound is not None:
+            return 'unroll'
         c = self.contract_of(fn)
         if c is not None and L['ord'] in c.loops:
             return 'cut'
@@ -2045,11 +2053,20 @@ class Executor:
                 return
             return cont(st, frame, res)
         c = self.contract_of(f2)
-        if c is not None and 'inline' not in c.flags and not (self.force_inline and callee in self.force_inline):
+        if c is not None and 'inline' not in c.flags and not (self.force_inline and callee in self.force_inline) \
+                and not (self.unroll_bound is not None and 'trusted' not in c.flags and c.modifies is not None and self.bounded_follow(callee)):
             return self.call_contract(st, frame, ins, f2, c, args, cont)
         return self.inline(st, frame, ins, f2, args, [], cont)
 
     force_inline = None
+    unroll_bound = None
+
+    def bounded_follow(self, callee):
+        """in a bounded check the bodies of the module's functions are followed (library models stay models)"""
+        f2 = self.prog.funcs.get(callee)
+        return f2 is not None and not f2.external
+
+    bounded_names = None
 
     def inline(self, st, frame, ins, f2, args, bindings, cont):
         if frame.depth >= self.max_inline:
